@@ -117,9 +117,11 @@ def judgeRun (cmds : List Cmd) (toks : List String) : List String :=
     let c02 := call.msgs.flatMap (fun m =>
       let us := unitsOf m.msg
       if !allPats ∨ us.any (fun u => !u.wellFormed ∨ u.nParams < 0) then [] else
-      let want := (expectDispatch patList us).map (fun e => match e with
-        | .run i eff => s!"H{(cmds.getD i ⟨[], 0, []⟩).tag}:{hexOfBytes eff}"
-        | .undefined _ => "E-113")
+      let want := (expectDispatch patList us).filterMap (fun e => match e with
+        | .run i eff => let cmd := cmds.getD i ⟨[], 0, []⟩
+                        if isNullCb cmd then none      -- an entry without a handler: nothing announces that it was selected
+                        else some s!"H{cmd.tag}:{hexOfBytes eff}"
+        | .undefined _ => some "E-113")
       let got := m.events.filter (fun t => t.startsWith "H" || t == "E-113")
       if got == want then []
       else if got.length != want.length then ["C02.handler_count"]
